@@ -229,6 +229,41 @@ pub fn scenario(r: &mut Report, c: &Case) {
         r.sample(json!({"case": case, "detail": detail}));
     }
     drop(o);
+    // a second mutable put on the same key once the first one is over (no put is in flight): lower seq,
+    // other value, no cas. Whatever it returns must again be backed by what the storing nodes answered.
+    if is_mutable {
+        obs.borrow_mut().stores.clear();
+        let second = PutRequestSpecific::PutMutable(PutMutableRequestArguments::from(MutableItem::new(&signer, b"second", 5, None), None));
+        let rx = put_raw(&x.dht, second, None);
+        let result2 = w.block_on(async move { rx.recv_async().await }, 300 * SEC);
+        w.run_for(6 * SEC);
+        let o = obs.borrow();
+        // a Late acknowledgement (4 s) may be in time for the second put: the request timeout adapts to
+        // the round-trip times seen during the first one
+        let (mut acks, mut e301, mut e302) = (0, 0, 0);
+        for (i, _, _) in &o.stores {
+            match fates[*i] {
+                Fate::Ack | Fate::Late => acks += 1,
+                Fate::E301 => e301 += 1,
+                Fate::E302 => e302 += 1,
+                _ => {}
+            }
+        }
+        let detail = json!({"second_put": true, "first_result": format!("{result:?}"), "store_requests": o.stores.len(), "acks_sent_incl_late": acks, "e301": e301, "e302": e302, "result": format!("{result2:?}")});
+        match &result2 {
+            None => r.violation("put/did-not-complete", "put did not complete within 300 virtual seconds", case.clone(), detail.clone()),
+            Some(Err(_)) => r.violation("put/channel-closed-without-result", "the put's channel was closed without a result", case.clone(), detail.clone()),
+            Some(Ok(Ok(_))) if acks == 0 => r.violation("result/ok-without-ack", "put returned Ok although no acknowledgement was delivered", case.clone(), detail.clone()),
+            Some(Ok(Err(PutError::Concurrency(ConcurrencyError::CasFailed)))) if e301 == 0 => r.violation("result/cas-failed-without-301", "CasFailed although no storing node answered 301 (or the put is not mutable)", case.clone(), detail.clone()),
+            Some(Ok(Err(PutError::Concurrency(ConcurrencyError::NotMostRecent)))) if e302 == 0 => r.violation("result/not-most-recent-without-302", "NotMostRecent although no storing node answered 302 (or the put is not mutable)", case.clone(), detail.clone()),
+            Some(Ok(Err(PutError::Concurrency(ConcurrencyError::ConflictRisk)))) => r.violation("result/conflict-risk-from-network", "ConflictRisk although no other put is in flight", case.clone(), detail.clone()),
+            _ => {}
+        }
+        r.count("second_puts_after_the_first_ended");
+        if matches!(result, Some(Ok(Err(PutError::Query(_))))) {
+            r.count("second_puts_after_a_failed_first");
+        }
+    }
     let dead = w.closed(x.sock);
     drop(x);
     for (thread, loc, msg) in crate::take_panics() {
